@@ -1504,6 +1504,13 @@ func (d *DotGit) walkReferencesTree(refs *[]*plumbing.Reference, relPath []strin
 			// a race happened, and our file is gone now
 			continue
 		}
+		if errors.Is(err, ErrEmptyRefFile) {
+			// An empty file is left behind by a failed check-and-set
+			// on a reference that has no loose file, or by an
+			// interrupted write. It holds no value: like git, ignore
+			// the broken file instead of failing the whole listing.
+			continue
+		}
 		if err != nil {
 			return err
 		}
